@@ -6,6 +6,7 @@ Verdicts:  'proved'   hyps /\ axioms /\ not goal is unsat;
                       and falsifies goal (or the goal mentions only genuinely uninterpreted functions);
            'unknown'  anything else. Only 'refuted' may ever become a VIOLATION.
 """
+import os
 import itertools
 import subprocess
 import time
@@ -479,7 +480,12 @@ def _repaired_is_spurious(z3, m, em, universe, allv, hyps, goal, ufs):
     import mpmath
     env = _model_env(z3, m, em, allv)
     old = mpmath.mp.dps
-    mpmath.mp.dps = 50
+    # z3 likes extreme rationals (1 - 1e-308): evaluate with enough digits to tell them from their neighbours
+    need = 50
+    for v in env.values():
+        if isinstance(v, Fraction):
+            need = max(need, 2 * (len(str(v.denominator)) + len(str(abs(v.numerator)))) + 50)
+    mpmath.mp.dps = min(need, 1500)
     try:
         cache = {}
         if not ufs:
@@ -497,16 +503,31 @@ def _repaired_is_spurious(z3, m, em, universe, allv, hyps, goal, ufs):
                         v = v.approx(30)
                     if z3.is_int_value(v) or z3.is_rational_value(v):
                         fr = Fraction(v.as_fraction()) if not z3.is_int_value(v) else Fraction(v.as_long())
+                        nd = 2 * (len(str(fr.denominator)) + len(str(abs(fr.numerator)))) + 50
+                        if nd > mpmath.mp.dps:
+                            mpmath.mp.dps = min(nd, 1500)
                         cache[t] = mpmath.mpf(fr.numerator) / mpmath.mpf(fr.denominator)
                 else:
                     cache[t] = str(v)
+        dbg = os.environ.get('VERIF_DEBUG_REPAIR')
         try:
             for h in hyps:
-                if ir.evaluate(h, env, ufs, cache=cache) is False:
+                hv = ir.evaluate(h, env, ufs, cache=cache)
+                if hv is False:
+                    if dbg:
+                        print('REPAIR: hypothesis false at the repaired model:', ir.show(h)[:300])
+                        for a_ in (h.args if h.op == 'and' else [h]):
+                            print('   conj', ir.show(a_)[:120], '->', ir.evaluate(a_, env, ufs, cache=cache),
+                                  [(ir.show(x)[:60], cache.get(x)) for x in ir.subterms(a_) if x.op == 'uf'][:3],
+                                  'z3:', m.eval(em(a_), model_completion=True))
                     return True
             g = ir.evaluate(goal, env, ufs, cache=cache)
-        except (ir.EvalError, TypeError, KeyError, ZeroDivisionError, ValueError, OverflowError, NotImplementedError):
+        except (ir.EvalError, TypeError, KeyError, ZeroDivisionError, ValueError, OverflowError, NotImplementedError) as e:
+            if dbg:
+                print('REPAIR: cannot evaluate:', repr(e)[:300])
             return False
+        if dbg:
+            print('REPAIR: goal evaluates to', g)
         return g is not False
     finally:
         mpmath.mp.dps = old
